@@ -30,6 +30,7 @@ type c20Case struct {
 	Constructor bool   `json:"constructor"`
 	ArgVariant  int    `json:"arg_variant"` // index into the cross product of per-parameter menus (0 = all distinctive)
 	Args        string `json:"args,omitempty"`
+	Flavour     int    `json:"delegate_error_flavour"` // 0 plain error, 1 an error that is ErrUnsupported, 2 nil
 }
 
 type c20Env struct {
@@ -42,6 +43,8 @@ type c20Env struct {
 	ctorErr  error
 	ctorHits int
 	vecs     [][][]reflect.Value
+	derr     error // what the recording delegates return as their error (see c20Flavours)
+	flavour  int
 }
 
 type c20Call struct {
@@ -57,7 +60,10 @@ func (c20Reader) Descriptor() ociregistry.Descriptor { return ociregistry.Descri
 type c20Writer struct{ ociregistry.BlobWriter }
 
 var (
-	c20SentinelErr    = errors.New("c20 delegate sentinel error")
+	c20SentinelErr = errors.New("c20 delegate sentinel error")
+	// what the delegates return as their error: a plain error, one that IS an unsupported-operation
+	// error (the documented answer of a registry that cannot mount, say), or none
+	c20Flavours       = []error{c20SentinelErr, fmt.Errorf("c20 delegate cannot do this: %w", ociregistry.ErrUnsupported), nil}
 	c20SentinelReader = &c20Reader{}
 	c20SentinelWriter = &c20Writer{}
 	c20ArgReader      = strings.NewReader("c20 arg reader")
@@ -93,6 +99,7 @@ func newC20Env() *c20Env {
 		e.methods = append(e.methods, m)
 	}
 	e.ctorErr = errors.New("c20 constructor error")
+	e.derr = c20Flavours[0]
 	for i, f := range e.fields {
 		i, f := i, f
 		call := &c20Call{}
@@ -102,7 +109,7 @@ func newC20Env() *c20Env {
 			call.args = args
 			out := make([]reflect.Value, f.Type.NumOut())
 			for j := range out {
-				out[j] = c20Result(f.Type.Out(j), i)
+				out[j] = c20Result(f.Type.Out(j), i, e.derr)
 			}
 			return out
 		}))
@@ -112,11 +119,13 @@ func newC20Env() *c20Env {
 
 var errType = reflect.TypeOf((*error)(nil)).Elem()
 
-func c20Result(t reflect.Type, k int) reflect.Value {
+func c20Result(t reflect.Type, k int, derr error) reflect.Value {
 	v := reflect.New(t).Elem()
 	switch {
 	case t == errType:
-		v.Set(reflect.ValueOf(c20SentinelErr))
+		if derr != nil {
+			v.Set(reflect.ValueOf(derr))
+		}
 	case t == reflect.TypeOf((*ociregistry.BlobReader)(nil)).Elem():
 		v.Set(reflect.ValueOf(c20SentinelReader))
 	case t == reflect.TypeOf((*ociregistry.BlobWriter)(nil)).Elem():
@@ -126,13 +135,17 @@ func c20Result(t reflect.Type, k int) reflect.Value {
 	case t == reflect.TypeOf(ociregistry.Seq[string](nil)):
 		v.Set(reflect.ValueOf(ociregistry.Seq[string](func(y func(string, error) bool) {
 			if y(fmt.Sprint("c20seq", k), nil) {
-				y(fmt.Sprint("c20seq-second", k), c20SentinelErr)
+				if derr != nil {
+					y(fmt.Sprint("c20seq-second", k), derr)
+				} else {
+					y(fmt.Sprint("c20seq-second", k), nil)
+				}
 			}
 		})))
 	case t == reflect.TypeOf(ociregistry.Seq[ociregistry.Descriptor](nil)):
 		v.Set(reflect.ValueOf(ociregistry.Seq[ociregistry.Descriptor](func(y func(ociregistry.Descriptor, error) bool) {
 			if y(ociregistry.Descriptor{Size: int64(9000 + k)}, nil) {
-				y(ociregistry.Descriptor{Size: int64(9500 + k)}, c20SentinelErr)
+				y(ociregistry.Descriptor{Size: int64(9500 + k)}, derr)
 			}
 		})))
 	default:
@@ -153,7 +166,12 @@ func c20ArgMenu(t reflect.Type, k int) []reflect.Value {
 		c.Set(reflect.ValueOf(c20CtxCancelled))
 		x.Set(reflect.ValueOf(c20CtxExpired))
 		return []reflect.Value{d, c, x}
-	case t.Kind() == reflect.String, t == reflect.TypeOf(ociregistry.Descriptor{}):
+	case t.Kind() == reflect.String:
+		// a string that would consume operands if it ever ended up inside a format string
+		p := reflect.New(t).Elem()
+		p.SetString("r%s/%d%v%")
+		return []reflect.Value{d, z, p}
+	case t == reflect.TypeOf(ociregistry.Descriptor{}):
 		return []reflect.Value{d, z}
 	case t.Kind() == reflect.Slice:
 		return []reflect.Value{d, z}
@@ -271,7 +289,7 @@ func (e *c20Env) run(r *vcore.Run, mi int, mask uint32, nilRecv, ctor bool, vari
 		variant = len(e.vecs[mi]) - 1
 	}
 	vec := e.vecs[mi][variant%len(e.vecs[mi])]
-	c := c20Case{Method: m.Name, Mask: mask, SetFields: e.fieldNames(mask), NilReceiver: nilRecv, Constructor: ctor, ArgVariant: variant}
+	c := c20Case{Method: m.Name, Mask: mask, SetFields: e.fieldNames(mask), NilReceiver: nilRecv, Constructor: ctor, ArgVariant: variant, Flavour: e.flavour}
 	if variant != 0 {
 		c.Args = c20ShowArgs(vec)
 	}
@@ -326,8 +344,8 @@ func (e *c20Env) run(r *vcore.Run, mi int, mask uint32, nilRecv, ctor bool, vari
 			}
 		}
 		for j := range out {
-			if !c20Same(out[j], c20Result(m.Type.Out(j), mi)) {
-				r.Violate("", fp+"/results-differ", c, fmt.Sprintf("result %d = %v", j, c20Result(m.Type.Out(j), mi)), fmt.Sprintf("%v", out[j]))
+			if !c20Same(out[j], c20Result(m.Type.Out(j), mi, e.derr)) {
+				r.Violate("", fp+"/results-differ", c, fmt.Sprintf("result %d = %v", j, c20Result(m.Type.Out(j), mi, e.derr)), fmt.Sprintf("%v", out[j]))
 				return
 			}
 		}
@@ -499,6 +517,16 @@ func c20Check(r *vcore.Run) vcore.Coverage {
 				if full[mask] {
 					e.run(r, mi, mask, false, false, 0)
 					nvar = len(e.vecs[mi])
+					if mask&(1<<mi) != 0 {
+						// the method's own function is set: whatever its delegate answers comes back unchanged
+						for fl := 1; fl < len(c20Flavours); fl++ {
+							e.flavour, e.derr = fl, c20Flavours[fl]
+							e.run(r, mi, mask, false, false, 0)
+							e.run(r, mi, mask, false, true, 0)
+							ev += 2
+						}
+						e.flavour, e.derr = 0, c20Flavours[0]
+					}
 				}
 				for _, ctor := range []bool{false, true} {
 					for v := 0; v < nvar; v++ {
@@ -542,6 +570,9 @@ func c20Replay(r *vcore.Run, sub string, raw json.RawMessage) {
 		panic(err)
 	}
 	e := newC20Env()
+	if c.Flavour > 0 && c.Flavour < len(c20Flavours) {
+		e.flavour, e.derr = c.Flavour, c20Flavours[c.Flavour]
+	}
 	for mi, m := range e.methods {
 		if m.Name == c.Method {
 			e.run(r, mi, c.Mask, c.NilReceiver, c.Constructor, c.ArgVariant)
